@@ -66,7 +66,7 @@ pub fn spawn_env(kind: &str, env: &[(&str, String)]) -> App {
     if kind != "offline" {
         std::fs::write(format!("{dir}/auth_secret"), APP_SECRET).expect("write secret");
     }
-    let exe = std::env::current_exe().expect("exe");
+    let exe = common::self_exe();
     let mut cmd = std::process::Command::new(exe);
     cmd.arg("C14-child-read").env("CONFIG_FILE", format!("{dir}/config.yaml")).env("AUTH_SECRET_FILE", format!("{dir}/auth_secret")).env_remove("ENV_PREFIX");
     for (k, _) in std::env::vars().filter(|(k, _)| k.starts_with("PASSAGE_")) {
